@@ -3,6 +3,7 @@
 package mon
 
 import (
+	"encoding/json"
 	"fmt"
 	"math/big"
 	"sort"
@@ -120,20 +121,36 @@ func C02(prev, cur *ledger.Ledger, blk *hist.Block, wrapped Allowance) []Finding
 // guilty verdict was recorded in this block.
 func C03(prev, cur *ledger.Ledger, blk *hist.Block, eoas map[string]bool, stakeOf map[string]string, guilty []string) []Finding {
 	auth := map[string]bool{}
+	// owners whose only successful transactions in the block are of kinds that cost their signers nothing but
+	// the fee: the most such an owner may lose is the sum of the fees it may have been charged
+	feeOnly := map[string]bool{}
+	feeBound := map[string]*big.Int{}
 	for _, t := range blk.Txs {
 		if t.Call.Code != 0 {
 			continue
 		}
 		for _, s := range t.Signers {
-			auth[s] = true
-			if st, ok := stakeOf[s]; ok {
-				auth[st] = true
+			for _, who := range []string{s, stakeOf[s]} {
+				if who == "" {
+					continue
+				}
+				if !auth[who] {
+					feeOnly[who] = true
+					feeBound[who] = new(big.Int)
+				}
+				auth[who] = true
+				if feeOnlyKinds[t.Kind] {
+					feeBound[who].Add(feeBound[who], maxFee(t.Bytes))
+				} else {
+					feeOnly[who] = false
+				}
 			}
 		}
 	}
 	for _, g := range guilty {
 		if st, ok := stakeOf[g]; ok {
 			auth[st] = true
+			feeOnly[st] = false
 		}
 	}
 	var out []Finding
@@ -143,6 +160,26 @@ func C03(prev, cur *ledger.Ledger, blk *hist.Block, eoas map[string]bool, stakeO
 	}
 	sort.Strings(owners)
 	for _, o := range owners {
+		if auth[o] && feeOnly[o] {
+			curs := map[string]bool{}
+			for c := range prev.Owner[o] {
+				curs[c] = true
+			}
+			for c := range cur.Owner[o] {
+				curs[c] = true
+			}
+			for c := range curs {
+				a, b := prev.Get(o, c), cur.Get(o, c)
+				bound := new(big.Int)
+				if c == "OLT" {
+					bound = feeBound[o]
+				}
+				if loss := new(big.Int).Sub(a, b); loss.Cmp(bound) > 0 {
+					out = append(out, Finding{"C03", "C03/debit-beyond-fees/" + c, fmt.Sprintf("block %d: holdings of %s in %s fell from %s to %s; the only successful transactions it signed in the block cost their signers nothing but the fee (at most %s in all) and no guilty verdict names it", blk.H, o, c, a, b, bound)})
+				}
+			}
+			continue
+		}
 		if auth[o] {
 			continue
 		}
@@ -159,6 +196,29 @@ func C03(prev, cur *ledger.Ledger, blk *hist.Block, eoas map[string]bool, stakeO
 				out = append(out, Finding{"C03", "C03/debit/" + c + "/" + where(blk), fmt.Sprintf("block %d: holdings of %s in %s fell from %s to %s although it signed nothing in the block and no guilty verdict names it", blk.H, o, c, a, b)})
 			}
 		}
+	}
+	return out
+}
+
+// feeOnlyKinds: transaction kinds whose handlers take nothing from their signers but the fee.
+var feeOnlyKinds = map[string]bool{"PROPOSAL_VOTE": true, "ALLEGATION": true, "ALLEGATION_VOTE": true, "RELEASE": true, "EXPIRE_VOTES": true, "PROPOSAL_FINALIZE": true, "ETH_REPORT_FINALITY_MINT": true}
+
+// maxFee: gas limit times price of a native transaction (the most its fee payer can be charged).
+func maxFee(bz []byte) *big.Int {
+	var st struct {
+		Fee struct {
+			Price struct {
+				Value string `json:"value"`
+			} `json:"price"`
+			Gas int64 `json:"gas"`
+		} `json:"fee"`
+	}
+	out := new(big.Int)
+	if json.Unmarshal(bz, &st) != nil {
+		return out
+	}
+	if p, ok := new(big.Int).SetString(st.Fee.Price.Value, 10); ok && p.Sign() > 0 && st.Fee.Gas > 0 {
+		out.Mul(p, big.NewInt(st.Fee.Gas))
 	}
 	return out
 }
